@@ -124,6 +124,70 @@ type mTx struct {
 	LockTime uint32   `json:"locktime"`
 	Ins      []gen.In `json:"ins"`
 	Outs     []mOuts  `json:"outs"`
+	// Pre lists what is done with the transaction object before the judged
+	// call (queries that must leave no trace, or a Clone / wire round trip the
+	// object went through): the judged call has to behave the same.
+	Pre []string `json:"pre,omitempty"`
+}
+
+// pickPre chooses the warm-up deterministically from the content (one case in three gets one).
+func (t *mTx) pickPre() {
+	h := uint64(t.Version)*31 + uint64(t.LockTime)*17 + uint64(len(t.Ins))*7 + uint64(len(t.Outs))
+	for i := range t.Ins {
+		h = h*131 + t.Ins[i].PrevSats + uint64(t.Ins[i].Vout)
+	}
+	switch h % 9 {
+	case 0:
+		t.Pre = []string{"queries"}
+	case 1:
+		t.Pre = []string{"clone"}
+	case 2:
+		t.Pre = []string{"queries", "wire", "queries"}
+	}
+}
+
+// build constructs the library transaction and applies the warm-up.
+func (t *mTx) build(c *mon.Ctx) *bt.Tx {
+	if t.Pre == nil && !c.Replay {
+		t.pickPre()
+	}
+	tx := t.shape().Build()
+	for _, p := range t.Pre {
+		switch p {
+		case "queries":
+			mon.TryQuiet(func() {
+				fq := bt.NewFeeQuote()
+				_ = tx.Size()
+				_ = tx.SizeWithTypes()
+				_, _ = tx.EstimateSize()
+				_, _ = tx.EstimateSizeWithTypes()
+				_, _ = tx.EstimateFeesPaid(fq)
+				_, _ = tx.IsFeePaidEnough(fq)
+				_, _ = tx.EstimateIsFeePaidEnough(fq)
+				_ = tx.TxID()
+				_ = tx.TotalInputSatoshis()
+				_ = tx.TotalOutputSatoshis()
+			})
+		case "clone":
+			mon.TryQuiet(func() { tx = tx.Clone() })
+		case "wire":
+			allPrev := true
+			for _, in := range tx.Inputs {
+				if in.PreviousTxScript == nil {
+					allPrev = false
+				}
+			}
+			if allPrev && (len(tx.Inputs) > 0 || len(tx.Outputs) > 0) {
+				mon.TryQuiet(func() {
+					if t2, err := bt.NewTxFromBytes(tx.ExtendedBytes()); err == nil {
+						tx = t2
+					}
+				})
+			}
+		}
+		c.Count("pre:" + p)
+	}
+	return tx
 }
 
 func (t *mTx) outCount() int {
